@@ -37,6 +37,7 @@ def instances(tier):
     for na in (3, 4):
         out.append(dict(id="plain-Euler-vec2-args%d" % na, method="Euler", shape=[2], mode="plain", N=1, nargs=na, budget=b))
     out.append(dict(id="maxstep-Euler-vec2", method="Euler", shape=[2], mode="maxstep", N=N, budget=b))
+    out.append(dict(id="maxstep-Euler-vec2-shared-callbacks-list", method="Euler", shape=[2], mode="maxstep", N=1, shared_callbacks=True, budget=b))
     for L in ((1, 2) if quick else (1, 2, 3)):
         out.append(dict(id="t_eval%d-Euler-vec2" % L, method="Euler", shape=[2], mode="t_eval", L=L, N=2, budget=b))
     out.append(dict(id="t_eval2-Euler-mat22", method="Euler", shape=[2, 2], mode="t_eval", L=2, N=2, budget=b))
@@ -116,6 +117,15 @@ def scenario(c, inst):
             for j in range(i + 1, len(pts)):
                 g = absval(c, pts[i] - pts[j])
                 c.assume(c.any([c.eq(g, 0), c.le(1.0 / 64, g)]) if c.symbolic else True)     # no hops at the rounding-tolerance scale
+    if inst.get("shared_callbacks"):
+        # an earlier solve_ivp call was given the SAME callbacks list object (a user's list of monitors) with other step bounds: the
+        # caller's list is not modified and the earlier call's bounds do not act on this one
+        shared = list(opts["callbacks"])
+        opts["callbacks"] = shared
+        n_shared = len(shared)
+        earlier = dict(first_step=h0, callbacks=shared, min_step=8 * max_step)
+        st0, res0 = run(de.solve_ivp, fun2, (t0, tf), y0, method=method, args=tuple([a_arg, b_arg] + extra), **earlier)
+        c.check("c18.callers_callbacks_list_is_not_modified", len(shared) == n_shared, info=dict(before=n_shared, after=len(shared)))
     st, res = run(de.solve_ivp, fun, (t0, tf), y0, method=method, t_eval=t_eval, args=tuple([a_arg, b_arg] + extra), dense_output=bool(inst.get("dense", False)), **opts)
     if st != "ok":
         cause = getattr(res, "__cause__", None)
